@@ -84,10 +84,7 @@ def rand_opts(rng):
 
 
 def specs_for(span_type, n):
-    sp = [None] + [['pos', i] for i in range(n)] + [['unknown']]
-    if span_type == 'period_q':
-        sp += [['str', i] for i in range(n)] + [['partial']]
-    return sp
+    return sc.label_specs(span_type, n)
 
 
 def build(rng, span_type, n, start, end, entry='solve', fault=None, lags=0, leads=0, **opts):
@@ -138,41 +135,52 @@ def gen(rng, tier):
     quick = tier == 'quick'
     nmax = 4 if quick else 5
     types = list(sc.SPAN_KIND)
-    # every (start, end) pair for every span type and length
+    # every (start, end) pair for every span type and length (quick tier: every pair up to length 3, a sample of pairs at length 4)
     for st in types:
         for n in range(0, nmax + 1):
             sp = specs_for(st, n)
-            for a in sp:
-                for b in sp:
-                    cases.append(build(rng, st, n, a, b))
-                    cases.append(build(rng, st, n, a, b, entry='iter_periods', lags=rng.choice([0, 0, 1]), leads=rng.choice([0, 0, 1])))
-                    if n == 0:
-                        continue
-                    if quick:
-                        faults = [(rng.randrange(n), rng.choice(FAULTS)) for _ in range(2)]
-                    elif n <= 4:
-                        faults = [(p, k) for p in range(n) for k in FAULTS]          # every fault kind at every position
-                    else:
-                        faults = [(rng.randrange(n), rng.choice(FAULTS)) for _ in range(8)]
-                    for f in faults:
-                        cases.append(build(rng, st, n, a, b, fault=f))
+            pairs = [(a, b) for a in sp for b in sp]
+            if quick and n >= 4:
+                pairs = rng.sample(pairs, 12)
+            for a, b in pairs:
+                cases.append(build(rng, st, n, a, b))
+                cases.append(build(rng, st, n, a, b, entry='iter_periods', lags=rng.choice([0, 0, 1]), leads=rng.choice([0, 0, 1])))
+                if n == 0:
+                    continue
+                if quick:
+                    faults = [(rng.randrange(n), rng.choice(FAULTS))]
+                elif n <= 4:
+                    faults = [(p, k) for p in range(n) for k in FAULTS]          # every fault kind at every position
+                else:
+                    faults = [(rng.randrange(n), rng.choice(FAULTS)) for _ in range(8)]
+                for f in faults:
+                    cases.append(build(rng, st, n, a, b, fault=f))
             # solve_period for every label spec
             for a in sp[1:]:
                 cases.append(build(rng, st, n, a, None, entry='solve_period'))
-                if n:
+                if n and (not quick or rng.random() < 0.5):
                     cases.append(build(rng, st, n, a, None, entry='solve_period', fault=(rng.randrange(n), rng.choice(FAULTS))))
     # lags / leads: defaults, spans too short, explicit starts before the first feasible period / ends after the last
     for st in types:
         for n in range(1, nmax + 1):
-            for lags in (0, 1, 2):
-                for leads in (0, 1, 2):
-                    if lags == 0 and leads == 0:
-                        continue
-                    cases.append(build(rng, st, n, None, None, lags=lags, leads=leads))
-                    cases.append(build(rng, st, n, None, None, lags=lags, leads=leads, fault=(rng.randrange(n), rng.choice(FAULTS))))
-                    cases.append(build(rng, st, n, ['pos', rng.randrange(n)], ['pos', rng.randrange(n)], lags=lags, leads=leads))
-                    cases.append(build(rng, st, n, ['pos', rng.randrange(n)], None, entry='solve_period', lags=lags, leads=leads))
-    # offsets (each period seeded from a neighbour), min_iter > max_iter, max_iter = 0
+            combos = [(lags, leads) for lags in (0, 1, 2) for leads in (0, 1, 2) if lags or leads]
+            if quick:
+                combos = rng.sample(combos, 3)
+            for lags, leads in combos:
+                cases.append(build(rng, st, n, None, None, lags=lags, leads=leads))
+                cases.append(build(rng, st, n, None, None, lags=lags, leads=leads, fault=(rng.randrange(n), rng.choice(FAULTS))))
+                cases.append(build(rng, st, n, ['pos', rng.randrange(n)], ['pos', rng.randrange(n)], lags=lags, leads=leads))
+                cases.append(build(rng, st, n, ['pos', rng.randrange(n)], None, entry='solve_period', lags=lags, leads=leads))
+    # the same offset goes to every period: offsets -2..2 over whole spans and over explicit ranges touching either end — the
+    # run stops with IndexError at the first period whose source lies outside the span, earlier periods keep their results
+    for st in types:
+        for n in range(1, nmax + 1):
+            for off in (-2, -1, 1, 2):
+                cases.append(build(rng, st, n, None, None, offset=off))
+                if not quick or rng.random() < 0.5:
+                    cases.append(build(rng, st, n, ['pos', rng.randrange(n)], ['pos', n - 1], offset=off,
+                                       fault=(rng.randrange(n), rng.choice(FAULTS)) if rng.random() < 0.3 else None))
+    # min_iter > max_iter, max_iter = 0, an invalid `errors`, random offsets
     for _ in range(300 if quick else 3000):
         st = rng.choice(types)
         n = rng.randint(1, nmax)
@@ -182,7 +190,7 @@ def gen(rng, tier):
         cases.append(build(rng, st, n, rng.choice(sp), rng.choice(sp), fault=(rng.randrange(n), rng.choice(FAULTS)) if rng.random() < 0.5 else None,
                            **extra))
     # parser-built models: real LAGS / LEADS, simultaneous and recursive systems, natural faults (1/X[-1], log)
-    for _ in range(600 if quick else 6000):
+    for _ in range(500 if quick else 6000):
         cases.append(parsed_case(rng, nmax))
     return cases
 
